@@ -274,6 +274,19 @@ def run(world, rep, tier, only=None):
     rep.ob("C18.e", site(ri, "metadata restored for files and directories"), bool(calls_to(ri, "fix_perms")) and
            bool(calls_to(du, "fix_perms")), "fix_perms is called by dump_file (files) and by rdump_inode (directories)")
 
+    # ------------------------------------------------------------------ C18.f a populate step that is retried gives back what it took
+    # (shared with C10.d) do_symlink_internal()/do_mkdir_internal() retry after ext2fs_expand_dir() when the parent is
+    # full; the failed first attempt of ext2fs_symlink()/ext2fs_mkdir() must have undone its block and inode
+    # accounting, or every retry leaves a block marked in use that nothing owns.
+    from rules import C10
+    for (cfn, cfile) in (("ext2fs_mkdir", "lib/ext2fs/mkdir.c"), ("ext2fs_symlink", "lib/ext2fs/symlink.c")):
+        cfx = prog.fn(cfn, cfile)
+        for callee, what in (("ext2fs_inode_alloc_stats2", "inode"), ("ext2fs_block_alloc_stats2", "block")):
+            n_a, n_u, leak, kept = C10.accounting_rollback(prog, cfx, callee)
+            rep.floor("C18.f %s accounting and its inverse in %s" % (what, cfn), min(n_a, n_u), 1)
+            rep.ob("C18.f", site(cfx, "%s accounting rolled back on every failure after it" % what), not leak,
+                   "error returns after %s(+1) without %s(-1): %s" % (callee, callee, leak[:2]))
+
     # ------------------------------------------------------------------ C18.w offset width
     fns = [f for f in prog.functions() if f.file in (CI, "misc/create_inode_libarchive.c", "misc/mk_hugefiles.c")] + \
           [f for f in dbg.functions() if f.file in (DUMP, "debugfs/debugfs.c", "debugfs/filefrag.c")]
